@@ -121,10 +121,7 @@ func runC11(c *Ctx, r *Report, tier string) {
 		recv := c.term(call.Call.Args[0])
 		switch {
 		case name == "(reflect.Value).SetBool":
-			okB := v == "true" || v == "call:strconv.ParseBool(P0)#0"
-			if v == "true" {
-				_, okB = c.Requires(cv, isInstr(in), litHas(false, "nonempty(P0)"), nil)
-			}
+			okB := c.boolStoreOK(cv, in, call.Call.Args[1])
 			r.Check(okB && recv == "P1", "EXACT-STORE", cn, "SetBool operand", c.ipos(in), "ParseBool's result, or true exactly for the empty value", "SetBool stores "+v)
 		case name == "(reflect.Value).SetInt" && (v == "conv[int64](call:time.ParseDuration(P0)#0)" || v == "call:time.ParseDuration(P0)#0"):
 			r.OK("EXACT-STORE", cn, "SetInt(duration)", c.ipos(in), "time.Duration → int64, same width (table entry)")
@@ -249,7 +246,7 @@ func runC11(c *Ctx, r *Report, tier string) {
 	// CHOICE
 	sn := c.fname(set)
 	var found *ssa.Phi
-	for _, b := range set.Blocks {
+	for _, b := range c.blocks(set) {
 		for _, in := range b.Instrs {
 			if p, ok := in.(*ssa.Phi); ok && p.Comment == "found" {
 				found = p
@@ -258,7 +255,7 @@ func runC11(c *Ctx, r *Report, tier string) {
 	}
 	// generic: boolean phi with a `true` edge whose block is guarded by the equality
 	var trueEdges []*ssa.BasicBlock
-	for _, b := range set.Blocks {
+	for _, b := range c.blocks(set) {
 		for _, in := range b.Instrs {
 			p, ok := in.(*ssa.Phi)
 			if !ok || relType(c, p.Type()) != "bool" {
@@ -272,11 +269,26 @@ func runC11(c *Ctx, r *Report, tier string) {
 		}
 	}
 	_ = found
+	var trueRets []ssa.Instruction
+	for _, h := range c.newCallees(set) {
+		if h.Signature.Results().Len() != 1 || relType(c, h.Signature.Results().At(0).Type()) != "bool" {
+			continue
+		}
+		for _, ret := range returnsOf(h) {
+			if c.term(ret.Results[0]) == "true" {
+				trueRets = append(trueRets, ret)
+			}
+		}
+	}
 	eqLit := func(l Lit) bool {
 		return l.Pos && strings.HasPrefix(l.Term, "eq(*(P1), idx(Option.Choices(P0), ") || l.Pos && strings.HasPrefix(l.Term, "eq(idx(Option.Choices(P0), ") && strings.HasSuffix(l.Term, ", *(P1))")
 	}
-	if len(trueEdges) == 0 {
+	if len(trueEdges)+len(trueRets) == 0 {
 		r.Fail("CHOICE", sn, "membership flag", "", "no boolean set to true found in Set")
+	}
+	for _, ret := range trueRets {
+		_, ok := c.Requires(set, isInstr(ret), eqLit, nil)
+		r.Check(ok, "CHOICE", sn, "found only on string equality with a declared choice", c.ipos(ret), "return true REQ(choice == *value)", "membership can be established without exact equality")
 	}
 	for _, pb := range trueEdges {
 		last := pb.Instrs[len(pb.Instrs)-1]
@@ -291,10 +303,12 @@ func runC11(c *Ctx, r *Report, tier string) {
 	}
 	// loop over all choices
 	okLoop := false
-	for _, l := range loopsOf(set) {
-		iff, ok := l.Header.Instrs[len(l.Header.Instrs)-1].(*ssa.If)
-		if ok && strings.HasPrefix(c.cond(iff.Cond).Term, "lt((phi{(phi↺ + 1) | -1} + 1), len(Option.Choices(P0)))") {
-			okLoop = true
+	for _, f := range append([]*ssa.Function{set}, c.newCallees(set)...) {
+		for _, l := range c.loopsDeep(f) {
+			iff, ok := l.Header.Instrs[len(l.Header.Instrs)-1].(*ssa.If)
+			if ok && strings.HasPrefix(c.cond(iff.Cond).Term, "lt((phi{(phi↺ + 1) | -1} + 1), len(Option.Choices(P0)))") {
+				okLoop = true
+			}
 		}
 	}
 	r.Check(okLoop, "CHOICE", sn, "membership scans all choices", c.pos(set.Pos()), "range over Option.Choices", "no loop over all of Option.Choices")
@@ -324,7 +338,7 @@ func runC11(c *Ctx, r *Report, tier string) {
 		okList := false
 		for _, e := range es {
 			t := c.term(e)
-			if strings.Contains(t, `call:strings.Join(slice(Option.Choices(P0), 0, (len(Option.Choices(P0)) - 1)), ", ")`) && strings.Contains(t, "idx(Option.Choices(P0), (len(Option.Choices(P0)) - 1))") {
+			if strings.Contains(t, `call:strings.Join(slice(Option.Choices(P0), _, (len(Option.Choices(P0)) - 1)), ", ")`) && strings.Contains(t, "idx(Option.Choices(P0), (len(Option.Choices(P0)) - 1))") {
 				okList = true
 			}
 		}
@@ -404,4 +418,39 @@ func (c *Ctx) ruleMapSplit(r *Report, rule string, cv *ssa.Function) {
 			r.Check(req, rule, cn, "value part only when a colon is present", c.ipos(last), "REQ(val contains ':')", "the text after the colon is used without testing that there is one")
 		}
 	}
+}
+
+// boolStoreOK: the operand of SetBool is ParseBool's result, or the constant
+// true on exactly the paths where the value string is empty (direct, or as a phi member).
+func (c *Ctx) boolStoreOK(cv *ssa.Function, in ssa.Instruction, v ssa.Value) bool {
+	v = c.resolve(v)
+	switch t := c.term(v); t {
+	case "call:strconv.ParseBool(P0)#0":
+		return true
+	case "true":
+		_, ok := c.Requires(cv, isInstr(in), litIs("nonempty(P0)", false), nil)
+		return ok
+	}
+	p, ok := v.(*ssa.Phi)
+	if !ok {
+		return false
+	}
+	for i, e := range p.Edges {
+		switch c.term(e) {
+		case "call:strconv.ParseBool(P0)#0":
+		case "true":
+			pred := p.Block().Preds[i]
+			last := pred.Instrs[len(pred.Instrs)-1]
+			_, req := c.Requires(cv, isInstr(last), litIs("nonempty(P0)", false), nil)
+			if l, ok := c.edgeLitTo(pred, p.Block()); ok && l.Term == "nonempty(P0)" && !l.Pos {
+				req = true
+			}
+			if !req {
+				return false
+			}
+		default:
+			return false
+		}
+	}
+	return true
 }
